@@ -25,7 +25,7 @@ def names(sc) -> dict:
     d = sc["dname"]
     dn = {"pubdecl": "pubdecl" + s, "_privdecl": "_privdecl" + s, "__dunder__": "__dunder" + s + "__"}[d]
     return {"decl": dn, "stem": sc["stem"] + s, "alias": (sc["reexp"]["alias"] + s) if sc["reexp"]["alias"] else "",
-            "meth": "meth" + s, "attr": "attr" + s, "pmeth": "_pmeth" + s, "iattr": "iattr" + s, "attr2": "attrb" + s, "iattr2": "iattrb" + s, "inner": "Inner" + s,
+            "meth": "meth" + s, "attr": "attr" + s, "pmeth": "_pmeth" + s, "iattr": "iattr" + s, "attr2": "attrb" + s, "iattr2": "iattrb" + s, "ometh": "ometh" + s, "prop": "prop" + s, "inner": "Inner" + s,
             "imeth": "imeth" + s, "pinner": "_PInner" + s, "AA": "AA" + s, "BB": "BB" + s}
 
 
@@ -34,9 +34,12 @@ def decl_src(sc, n) -> str:
     if k == "function":
         return f"def {d}(a: int) -> int:\n    ...\n"
     if k == "class":
-        return (f"class {d}:\n    {n['attr']}: int = 1\n    {n['attr']}, {n['attr2']} = 2, 3\n\n    def __init__(self, a: int):\n        self.{n['iattr']}: int = a\n"
+        return ("from typing import overload\n\n\n" + f"class {d}:\n    {n['attr']}: int = 1\n    {n['attr']}, {n['attr2']} = 2, 3\n\n    def __init__(self, a: int):\n        self.{n['iattr']}: int = a\n"
                 f"        self.{n['iattr']}, self.{n['iattr2']} = a, a\n\n"
-                f"    def {n['meth']}(self, a: int) -> int:\n        ...\n\n    def {n['pmeth']}(self) -> int:\n        ...\n")
+                f"    def {n['meth']}(self, a: int) -> int:\n        ...\n\n    def {n['pmeth']}(self) -> int:\n        ...\n\n"
+                f"    @overload\n    @staticmethod\n    def {n['ometh']}(a: int) -> int: ...\n\n    @overload\n    @staticmethod\n    def {n['ometh']}(a: str) -> int: ...\n\n"
+                f"    @staticmethod\n    def {n['ometh']}(a) -> int:\n        ...\n\n"
+                f"    @property\n    def {n['prop']}(self) -> int:\n        ...\n\n    @{n['prop']}.setter\n    def {n['prop']}(self, v: int) -> None:\n        ...\n")
     if k == "classinner":
         return (f"class {d}:\n    def {n['meth']}(self) -> int:\n        ...\n\n    class {n['inner']}:\n        def {n['imeth']}(self) -> int:\n            ...\n\n"
                 f"    class {n['pinner']}:\n        pass\n")
@@ -103,10 +106,10 @@ def observe(sc, stubs: Stubs, idx: dict, rootname: str) -> dict:
     n = names(sc)
     sid = f"s{sc['id']:04d}"
     mark = sfx(sc["id"])
-    roles = {"function": ["decl"], "class": ["decl", "meth", "attr", "pmeth", "iattr", "attr2", "iattr2"],
+    roles = {"function": ["decl"], "class": ["decl", "meth", "attr", "pmeth", "iattr", "attr2", "iattr2", "ometh", "prop"],
              "classinner": ["decl", "meth", "inner", "imeth", "pinner"], "enum": ["decl", "AA", "BB"]}[sc["kind"]]
     top_names = {n["decl"]} | ({n["alias"]} if n["alias"] else set())
-    owner = {"meth": "decl", "attr": "decl", "pmeth": "decl", "iattr": "decl", "attr2": "decl", "iattr2": "decl", "inner": "decl", "pinner": "decl", "imeth": "inner", "AA": "decl", "BB": "decl"}
+    owner = {"meth": "decl", "attr": "decl", "pmeth": "decl", "iattr": "decl", "attr2": "decl", "iattr2": "decl", "ometh": "decl", "prop": "decl", "inner": "decl", "pinner": "decl", "imeth": "inner", "AA": "decl", "BB": "decl"}
     occs = {r: [] for r in roles}
     for rel, f in stubs.files.items():
         home = None
@@ -137,6 +140,7 @@ def observe(sc, stubs: Stubs, idx: dict, rootname: str) -> dict:
           "meth": flag("functions", f"{did}/{n['meth']}"), "pmeth": flag("functions", f"{did}/{n['pmeth']}"),
           "attr": flag("attributes", f"{did}/{n['attr']}"), "iattr": flag("attributes", f"{did}/{n['iattr']}"),
           "attr2": flag("attributes", f"{did}/{n['attr2']}"), "iattr2": flag("attributes", f"{did}/{n['iattr2']}"),
+          "ometh": flag("functions", f"{did}/{n['ometh']}"), "prop": flag("functions", f"{did}/{n['prop']}"),
           "inner": flag("classes", f"{did}/{n['inner']}"), "pinner": flag("classes", f"{did}/{n['pinner']}"),
           "imeth": flag("functions", f"{did}/{n['inner']}/{n['imeth']}"), "AA": "absent", "BB": "absent"}
     # decl names are reported without the scenario suffix so that the spec can compare them with dname / alias
